@@ -54,7 +54,8 @@ def ex_bfhashes(repo):
 
 
 def obligations():
-    return _own() + (common.shared('C02', ['O2.5-add-block'], 'O6', 'a downloaded body is accepted only for a matched hash that was proved'))
+    return _own() + (common.shared('C02', ['O2.5-add-block'], 'O6', 'a downloaded body is accepted only for a matched hash that was proved') +
+                     common.shared('C02', ['O2.3-blocks-proof-semantic'], 'O6', 'a matched block is marked proved (and then downloaded and indexed) only if its header was received and MMR-verified - never a hash reported missing'))
 
 
 def _own():
